@@ -14,6 +14,12 @@
 //! ordered log; implementation-side oracles decide the property on that log and on counters
 //! read at the very moment a call returns, then the log is fed to the Lean acceptor
 //! (`asyncd` sub-model).
+//! Panics are injected at every position of a history: an ordinary system of a chosen dispatch
+//! panics in `fetch` or inside `run` (the pools have a `panic_handler`, which the harness also
+//! uses to see that the job is over), a thread-local system panics inside a chosen `wait`; the
+//! script goes on afterwards and every entry point is called on what is left. `setup` is followed
+//! by a look at the world (hook events, default-provided resources), `mutate` removes / replaces
+//! those resources through `world_mut()` in between.
 use crate::build::*;
 use crate::common::*;
 use crate::engines::asyncd_sys::*;
@@ -41,11 +47,17 @@ pub enum Rel {
 pub enum AOp {
     /// `queue`: every pool thread is occupied by a harness job until the release, so that the
     /// dispatched job has certainly not started
-    Dispatch { gate: Vec<usize>, rel: Rel, queue: bool },
+    /// `panic`: (system, 1 = inside `run` | 2 = in `fetch`) — that ordinary system panics in this dispatch
+    Dispatch { gate: Vec<usize>, rel: Rel, queue: bool, panic: Option<(usize, u8)> },
     Running,
     /// poll `running()` (every poll is logged) until it answers false, at most 60 times
     Spin,
     Wait,
+    /// `wait()` during which thread-local system `tag` panics (1 = inside `run` | 2 = in `fetch`)
+    WaitPanic { tag: usize, mode: u8 },
+    /// `world_mut()`, then the setup resources are removed / replaced: per `Sr<k>` 0 = leave alone,
+    /// 1 = remove, v + 2 = set to v
+    Mutate { plan: Vec<usize> },
     WaitNoTl,
     World,
     WorldMut,
@@ -64,11 +76,11 @@ impl AOp {
     fn code(&self) -> usize {
         match self {
             AOp::Dispatch { .. } => 0,
-            AOp::Wait => 1,
+            AOp::Wait | AOp::WaitPanic { .. } => 1,
             AOp::WaitNoTl => 2,
             AOp::Running | AOp::Spin => 3,
             AOp::World => 4,
-            AOp::WorldMut => 5,
+            AOp::WorldMut | AOp::Mutate { .. } => 5,
             AOp::Setup => 6,
             AOp::Res => 7,
             AOp::MutRes => 8,
@@ -80,15 +92,24 @@ impl AOp {
     }
     fn line(&self) -> String {
         match self {
-            AOp::Dispatch { gate, rel, queue } => format!(
-                "aop dispatch gate={} rel={}{}",
+            AOp::Dispatch { gate, rel, queue, panic } => format!(
+                "aop dispatch gate={} rel={}{}{}",
                 if gate.is_empty() { "-".to_string() } else { gate.iter().map(|x| x.to_string()).collect::<Vec<_>>().join(",") },
                 match rel {
                     Rel::Block(us) => format!("block:{}", us),
                     Rel::Timer(us) => format!("timer:{}", us),
                     Rel::Obs(n) => format!("obs:{}", n),
                 },
-                if *queue { " queue=1" } else { "" }
+                if *queue { " queue=1" } else { "" },
+                match panic {
+                    Some((t, m)) => format!(" panic={}:{}", t, if *m == 2 { "fetch" } else { "run" }),
+                    None => String::new(),
+                }
+            ),
+            AOp::WaitPanic { tag, mode } => format!("aop wait panic={}:{}", tag, if *mode == 2 { "fetch" } else { "run" }),
+            AOp::Mutate { plan } => format!(
+                "aop mutate {}",
+                plan.iter().map(|p| match *p { 0 => "-".to_string(), 1 => "rm".to_string(), v => (v - 2).to_string() }).collect::<Vec<_>>().join(",")
             ),
             AOp::Spin => "aop spin".into(),
             AOp::Settle => "aop settle".into(),
@@ -138,6 +159,7 @@ impl Case {
                     let mut gate = vec![];
                     let mut rel = Rel::Block(200);
                     let mut queue = false;
+                    let mut panic = None;
                     for kv in rest {
                         if let Some(v) = kv.strip_prefix("gate=") {
                             gate = v.split(',').filter_map(|x| x.parse().ok()).collect();
@@ -152,9 +174,20 @@ impl Case {
                             };
                         } else if let Some(v) = kv.strip_prefix("queue=") {
                             queue = v == "1";
+                        } else if let Some(v) = kv.strip_prefix("panic=") {
+                            panic = parse_panic(v);
                         }
                     }
-                    c.aops.push(AOp::Dispatch { gate, rel, queue });
+                    c.aops.push(AOp::Dispatch { gate, rel, queue, panic });
+                }
+                ["aop", "wait", kv] if kv.starts_with("panic=") => match parse_panic(&kv[6..]) {
+                    Some((tag, mode)) => c.aops.push(AOp::WaitPanic { tag, mode }),
+                    None => c.aops.push(AOp::Wait),
+                },
+                ["aop", "mutate", plan] => {
+                    let mut v: Vec<usize> = plan.split(',').map(|x| match x { "-" => 0, "rm" => 1, n => n.parse::<usize>().map(|n| n + 2).unwrap_or(0) }).collect();
+                    v.resize(NSR, 0);
+                    c.aops.push(AOp::Mutate { plan: v });
                 }
                 ["aop", "spin"] => c.aops.push(AOp::Spin),
                 ["aop", "settle"] => c.aops.push(AOp::Settle),
@@ -188,6 +221,12 @@ impl Case {
     }
 }
 
+fn parse_panic(v: &str) -> Option<(usize, u8)> {
+    let mut q = v.split(':');
+    let t = q.next()?.parse().ok()?;
+    Some((t, if q.next() == Some("fetch") { 2 } else { 1 }))
+}
+
 pub fn gen_case(seed: u64, c: u64, max_ops: u64) -> Case {
     let mut cfg = GenCfg::profile("flat");
     cfg.max_n = 8;
@@ -195,6 +234,8 @@ pub fn gen_case(seed: u64, c: u64, max_ops: u64) -> Case {
     let mut g = Gen::new(Rng::new(seed, c), cfg);
     let ops = g.case();
     let mut r = Rng::new(seed, c ^ 0x5eed_a5c1);
+    // the injected panics and the world mutations have a stream of their own
+    let mut rp = Rng::new(seed, c ^ 0x70a1_1c00);
     let mut case = Case { ops, arc: r.chance(30), threads: 1 + r.below(4) as usize, holds: vec![], aops: vec![] };
     let staged = case.staged();
     for t in &staged {
@@ -231,7 +272,8 @@ pub fn gen_case(seed: u64, c: u64, max_ops: u64) -> Case {
             };
             block_pending = (!gate.is_empty() || queue) && !matches!(rel, Rel::Timer(_));
             any_dispatch = true;
-            AOp::Dispatch { gate, rel, queue }
+            let panic = if !staged.is_empty() && rp.chance(12) { Some((*rp.pick(&staged), 1 + rp.below(2) as u8)) } else { None };
+            AOp::Dispatch { gate, rel, queue, panic }
         } else if k < 50 {
             AOp::Running
         } else if k < 55 {
@@ -241,7 +283,12 @@ pub fn gen_case(seed: u64, c: u64, max_ops: u64) -> Case {
                 AOp::Spin
             }
         } else if k < 64 {
-            AOp::Wait
+            let tls = case.tls();
+            if !tls.is_empty() && rp.chance(30) {
+                AOp::WaitPanic { tag: *rp.pick(&tls), mode: 1 + rp.below(2) as u8 }
+            } else {
+                AOp::Wait
+            }
         } else if k < 70 {
             AOp::WaitNoTl
         } else if k < 74 {
@@ -265,6 +312,10 @@ pub fn gen_case(seed: u64, c: u64, max_ops: u64) -> Case {
             block_pending = false;
         }
         let was_dispatch = matches!(a, AOp::Dispatch { .. });
+        if a == AOp::Setup && rp.chance(50) || rp.chance(3) {
+            // resources removed / replaced through `world_mut()` in front of it
+            case.aops.push(AOp::Mutate { plan: (0..NSR).map(|k| match rp.below(4) { 0 => 0, 1 | 2 => 1, _ => 9000 + 10 * rp.below(50) as usize + k + 2 }).collect() });
+        }
         case.aops.push(a);
         // a dispatch that is left alone until it has finished
         if was_dispatch && r.chance(20) {
@@ -276,13 +327,18 @@ pub fn gen_case(seed: u64, c: u64, max_ops: u64) -> Case {
 }
 
 /// the contexts in which a history step issues its operation
-pub const CTX: [&str; 4] = ["idle", "held", "queued", "settled"];
+pub const CTX: [&str; 6] = ["idle", "held", "queued", "settled", "panicked", "panicking"];
+/// the entry points of a history step: the 9 public methods, and `wait` with a panic of the
+/// first / of the last thread-local system
+pub const ENTRIES: usize = 11;
 /// number of different history steps: (context, entry point)
-pub const STEPS: u64 = (CTX.len() * OPS.len()) as u64;
+pub const STEPS: u64 = (CTX.len() * ENTRIES) as u64;
+/// plans × the two places of a panic (inside `run` / in `fetch`)
+pub const VARIANTS: u64 = 16;
 
-fn entry(code: usize) -> AOp {
+fn entry(code: usize, tls: &[usize], mode: u8) -> AOp {
     match code {
-        0 => AOp::Dispatch { gate: vec![], rel: Rel::Timer(0), queue: false },
+        0 => AOp::Dispatch { gate: vec![], rel: Rel::Timer(0), queue: false, panic: None },
         1 => AOp::Wait,
         2 => AOp::WaitNoTl,
         3 => AOp::Running,
@@ -290,16 +346,29 @@ fn entry(code: usize) -> AOp {
         5 => AOp::WorldMut,
         6 => AOp::Setup,
         7 => AOp::Res,
-        _ => AOp::MutRes,
+        8 => AOp::MutRes,
+        9 => match tls.first() {
+            Some(t) => AOp::WaitPanic { tag: *t, mode },
+            None => AOp::Wait,
+        },
+        _ => match tls.last() {
+            Some(t) => AOp::WaitPanic { tag: *t, mode },
+            None => AOp::Wait,
+        },
     }
 }
 
-/// the `idx`-th history of `depth` steps, each step = one entry point issued in one of four
+/// the `idx`-th history of `depth` steps, each step = one entry point issued in one of six
 /// contexts: `idle` (no new dispatch), `held` (a fresh dispatch with a system held inside `run`
 /// until the entry point has returned or the caller is seen parked in it), `queued` (a fresh
 /// dispatch whose job cannot start before that), `settled` (a fresh dispatch that has finished
-/// on its own and has not been looked at). `variant` picks the plan, the held system, the pool
-/// size and the world type.
+/// on its own and has not been looked at), `panicked` (a fresh dispatch in which a system
+/// panicked; the harness has seen the pool's panic handler run, no dispatcher method),
+/// `panicking` (a fresh dispatch in which a system panics while a sibling — or the system itself,
+/// or a system of an earlier stage — is held inside `run` until the entry point has returned or
+/// the caller is seen parked in it). `variant` picks the plan, the held / panicking system, the
+/// pool size, the world type and whether panics happen inside `run` or in `fetch`. A `setup`
+/// step is preceded by a `mutate` (resources removed / replaced through `world_mut()`).
 pub fn hist_case(idx: u64, depth: u64, variant: u64) -> Case {
     let mut steps = vec![];
     let mut x = idx;
@@ -308,29 +377,51 @@ pub fn hist_case(idx: u64, depth: u64, variant: u64) -> Case {
         x /= STEPS;
     }
     steps.reverse();
-    let uses_setup = steps.iter().any(|s| (s % OPS.len() as u64) == 6);
-    // (plan, gate, threads, arc)
+    let uses_setup = steps.iter().any(|s| (s % ENTRIES as u64) == 6);
+    // (plan, gate, threads, arc, panicking system, held while it panics)
     let a = ["sys 0 7330 - - 0.0 1", "sys 1 7331 - 1.0 - 1", "sys 2 7332 7330 0.0 - 1", "tl 3 - -"];
     let b = ["sys 0 7330 - - 0.0 1"];
     let c = ["sys 0 7330 - - 0.0 1", "sys 1 7331 - - 0.0 1", "sys 2 7332 - - 0.0 1", "tl 3 - -", "tl 4 - -"];
-    let variants: [(&[&str], &[usize], usize, bool); 8] =
-        [(&a, &[0], 2, false), (&a, &[2], 1, false), (&b, &[0], 1, false), (&c, &[2], 3, false), (&a, &[1], 4, false), (&c, &[1], 2, false), (&a, &[2], 2, true), (&c, &[0, 2], 3, true)];
+    let variants: [(&[&str], &[usize], usize, bool, usize, &[usize]); 8] = [
+        (&a, &[0], 2, false, 0, &[1]),
+        (&a, &[2], 1, false, 0, &[0]),
+        (&b, &[0], 1, false, 0, &[0]),
+        (&c, &[2], 3, false, 1, &[0]),
+        (&a, &[1], 4, false, 1, &[0]),
+        (&c, &[1], 2, false, 1, &[1]),
+        (&a, &[2], 2, true, 0, &[1]),
+        (&c, &[0, 2], 3, true, 0, &[0]),
+    ];
     let nv = if uses_setup { 6 } else { 8 };
-    let (plan, gate, threads, arc) = variants[(variant % nv) as usize];
+    let (plan, gate, threads, arc, pan, pheld) = variants[(variant % nv) as usize];
+    let mode = 1 + ((variant / nv) % 2) as u8;
     let lines: Vec<String> = plan.iter().map(|s| s.to_string()).collect();
     let mut case = Case { ops: Op::parse(&lines), arc, threads, holds: vec![], aops: vec![] };
+    let tls = case.tls();
+    let mut setups = 0;
     for s in steps {
-        let (ctx, op) = ((s / OPS.len() as u64) as usize, (s % OPS.len() as u64) as usize);
+        let (ctx, op) = ((s / ENTRIES as u64) as usize, (s % ENTRIES as u64) as usize);
+        if op == 6 && !arc {
+            // even: everything the hooks provide is removed; odd: half removed, half replaced
+            let odd = (variant / nv + setups) % 2 == 1;
+            case.aops.push(AOp::Mutate { plan: (0..NSR).map(|k| if !odd || k % 2 == 0 { 1 } else { 9000 + 10 * setups as usize + k + 2 }).collect() });
+            setups += 1;
+        }
         match ctx {
-            1 => case.aops.push(AOp::Dispatch { gate: gate.to_vec(), rel: Rel::Obs(1), queue: false }),
-            2 => case.aops.push(AOp::Dispatch { gate: vec![], rel: Rel::Obs(1), queue: true }),
+            1 => case.aops.push(AOp::Dispatch { gate: gate.to_vec(), rel: Rel::Obs(1), queue: false, panic: None }),
+            2 => case.aops.push(AOp::Dispatch { gate: vec![], rel: Rel::Obs(1), queue: true, panic: None }),
             3 => {
-                case.aops.push(AOp::Dispatch { gate: vec![], rel: Rel::Timer(0), queue: false });
+                case.aops.push(AOp::Dispatch { gate: vec![], rel: Rel::Timer(0), queue: false, panic: None });
                 case.aops.push(AOp::Settle);
             }
+            4 => {
+                case.aops.push(AOp::Dispatch { gate: vec![], rel: Rel::Timer(0), queue: false, panic: Some((pan, mode)) });
+                case.aops.push(AOp::Settle);
+            }
+            5 => case.aops.push(AOp::Dispatch { gate: pheld.to_vec(), rel: Rel::Obs(1), queue: false, panic: Some((pan, mode)) }),
             _ => {}
         }
-        case.aops.push(entry(op));
+        case.aops.push(entry(op, &tls, mode));
     }
     case
 }
@@ -345,6 +436,18 @@ pub enum Ent {
     Sys { k: char, tag: usize, th: char, d: usize },
     /// the harness has seen the systems' own completion signal (no dispatcher method involved)
     Quiet,
+    /// the call of the entry point ended by unwinding: 0 = "Sender dropped", 1 = the payload of an
+    /// injected panic, 2 = anything else
+    Unwound(usize, usize),
+    /// the setup hook of system `tag` was called
+    Hook { tag: usize, th: char },
+    /// the harness has seen the pool's panic handler run for the job (no dispatcher method involved)
+    Gone,
+    /// harness bookkeeping, not events of the dispatcher: what `mutate` did to the setup resources
+    /// (per `Sr<k>`: 0 left alone, 1 removed, v + 2 set to v) / what the world held of them when
+    /// it was looked at after `setup` (0 absent, v + 1)
+    Mutated(Vec<usize>),
+    Probed(Vec<usize>),
 }
 impl Ent {
     pub fn show(&self) -> String {
@@ -353,6 +456,18 @@ impl Ent {
             Ent::Ret(o, v) => format!("ret {} {}", OPS[*o], *v as u8),
             Ent::Sys { k, tag, th, d } => format!("ev {} {} {} {}", k, tag, th, d),
             Ent::Quiet => "quiet".into(),
+            Ent::Unwound(o, _) => format!("unwound {}", OPS[*o]),
+            Ent::Hook { tag, th } => format!("hook {} {}", tag, th),
+            Ent::Gone => "gone".into(),
+            Ent::Mutated(v) => format!("(mutate Sr<0..>: {})", v.iter().map(|p| match *p { 0 => "-".to_string(), 1 => "removed".to_string(), x => format!("set to {}", x - 2) }).collect::<Vec<_>>().join(", ")),
+            Ent::Probed(v) => format!("(the world has Sr<0..>: {})", v.iter().map(|p| if *p == 0 { "absent".to_string() } else { (p - 1).to_string() }).collect::<Vec<_>>().join(", ")),
+        }
+    }
+    /// what the Lean acceptor is told (harness bookkeeping is not an event of the model)
+    pub fn model_line(&self) -> Option<String> {
+        match self {
+            Ent::Mutated(_) | Ent::Probed(_) => None,
+            e => Some(e.show()),
         }
     }
 }
@@ -364,6 +479,10 @@ pub struct RunOut {
     /// that have returned) — both read at the moment the call returned, before anything else
     pub snaps: Vec<(usize, usize, u64)>,
     pub panicked: Option<String>,
+    /// the panic message of every `Unwound` entry, in order
+    pub unwinds: Vec<String>,
+    pub gone_seen: u64,
+    pub gone_missed: u64,
     /// a call that stayed parked although nothing was left to wait for: (operation, evidence)
     pub hang: Option<(String, String)>,
     pub watchdog: bool,
@@ -402,12 +521,15 @@ pub struct Env {
     /// a call is reported as stuck after it has been seen parked, with an idle pool, nothing
     /// held and no system inside `run`, at every sample over this many milliseconds
     pub hang_ms: u64,
+    /// number of pool jobs that ended in a panic (counted by the pools' panic handler)
+    pub pool_panics: Arc<AtomicU64>,
 }
 impl Env {
     pub fn new(watchdog_ms: u64, hang_ms: u64) -> Env {
-        let pools: Vec<Pool> = (1..=4).map(make_pool).collect();
+        let pool_panics = Arc::new(AtomicU64::new(0));
+        let pools: Vec<Pool> = (1..=4).map(|n| make_counting_pool(n, pool_panics.clone())).collect();
         let tids = pools.iter().map(|p| p.broadcast(|_| os_tid())).collect();
-        Env { pools, tids, watchdog_ms, hang_ms }
+        Env { pools, tids, watchdog_ms, hang_ms, pool_panics }
     }
 }
 
@@ -494,12 +616,35 @@ fn all_parked(tids: &[u64]) -> Option<bool> {
     Some(all)
 }
 
-/// the part of `run_real` that runs on the thread owning the dispatcher; Some(text) = an
-/// operation panicked
-fn caller_body(case: &Case, shared: &Arc<Shared>, gates: &Arc<Gates>, w: &Arc<Watch>, pool: &Pool, ptids: &[u64], skip: &[usize], watchdog_ms: u64) -> Option<String> {
+/// what the thread owning the dispatcher reports back
+#[derive(Default)]
+pub struct CallerOut {
+    /// the dispatcher could not be built
+    pub failed: Option<String>,
+    /// the panic message of every call that unwound, in the order of the `U` entries of the log
+    pub unwinds: Vec<String>,
+    pub gone_seen: u64,
+    pub gone_missed: u64,
+}
+
+/// 0 = "Sender dropped", 1 = the payload of a panic the harness injected, 2 = anything else
+fn unwind_kind(msg: &str) -> usize {
+    if msg.contains("Sender dropped") {
+        0
+    } else if msg.contains("harness panic") {
+        1
+    } else {
+        2
+    }
+}
+
+/// the part of `run_real` that runs on the thread owning the dispatcher
+fn caller_body(case: &Case, shared: &Arc<Shared>, gates: &Arc<Gates>, w: &Arc<Watch>, pool: &Pool, ptids: &[u64], skip: &[usize], watchdog_ms: u64, pool_panics: &Arc<AtomicU64>) -> CallerOut {
+    let mut cout = CallerOut::default();
     shared.set_caller();
     w.tid.store(os_tid(), SeqCst);
     let staged: Vec<usize> = case.staged().into_iter().filter(|t| !skip.contains(t)).collect();
+    let tls = case.tls();
     let built = catch_unwind(AssertUnwindSafe(|| {
         let b = build_gated(&case.ops, shared, gates, pool, skip);
         if case.arc {
@@ -510,9 +655,11 @@ fn caller_body(case: &Case, shared: &Arc<Shared>, gates: &Arc<Gates>, w: &Arc<Wa
     }));
     let mut d = match built {
         Ok(d) => d,
-        Err(p) => return Some(format!("build_async panicked: {}", panic_message(&p))),
+        Err(p) => {
+            cout.failed = Some(format!("build_async panicked: {}", panic_message(&p)));
+            return cout;
+        }
     };
-    let mut panicked = None;
     // number of blocking operations the caller has entered so far (timer / block releases)
     let entered = Arc::new(AtomicU64::new(0));
     let mut helpers = vec![];
@@ -522,8 +669,36 @@ fn caller_body(case: &Case, shared: &Arc<Shared>, gates: &Arc<Gates>, w: &Arc<Wa
     }
     let mut n_dispatch = 0u64;
     let mut seq = 0u64;
+    // the value of the pool's panic counter when a dispatch with an injected panic returned: the
+    // job of that dispatch will end in the pool's panic handler
+    let mut armed: Option<u64> = None;
     let fin = |gates: &Gates| -> u64 { staged.iter().map(|t| gates.done[*t].load(SeqCst)).sum() };
-    'script: for a in &aops {
+    // one call of a dispatcher method: logged as C … R (returned) or C … U (unwound), with the
+    // counters read at the very moment the call ended
+    let mut call = |d: &mut Disp, seq: &mut u64, unwinds: &mut Vec<String>, code: usize, f: &mut dyn FnMut(&mut Disp) -> bool| -> Option<bool> {
+        shared.push('C', vec![code]);
+        *seq += 1;
+        w.cur_op.store(code, SeqCst);
+        w.entered.store(*seq, SeqCst);
+        let res = catch_unwind(AssertUnwindSafe(|| f(d)));
+        // the state at the moment of the return, before anything else is done
+        let inside = shared.inside.load(SeqCst);
+        let done = fin(gates);
+        w.returned.store(*seq, SeqCst);
+        match res {
+            Ok(v) => {
+                shared.push('R', vec![code, v as usize, inside, done as usize]);
+                Some(v)
+            }
+            Err(p) => {
+                let msg = panic_message(&p);
+                shared.push('U', vec![code, unwind_kind(&msg), inside, done as usize]);
+                unwinds.push(msg);
+                None
+            }
+        }
+    };
+    for a in &aops {
         if *a == AOp::Settle {
             // let everything finish on its own: no method of the dispatcher is called
             if w.release_all(gates) > 0 {
@@ -534,7 +709,12 @@ fn caller_body(case: &Case, shared: &Arc<Shared>, gates: &Arc<Gates>, w: &Arc<Wa
             let t0 = Instant::now();
             let mut idle_run = 0;
             let complete = loop {
-                if staged.iter().all(|t| gates.done[*t].load(SeqCst) >= n_dispatch) {
+                let over = match armed {
+                    // a job in which a system panics is over when the pool's panic handler has run
+                    Some(before) => pool_panics.load(SeqCst) > before,
+                    None => staged.iter().all(|t| gates.done[*t].load(SeqCst) >= n_dispatch),
+                };
+                if over {
                     break true;
                 }
                 if t0.elapsed() > Duration::from_millis(watchdog_ms) {
@@ -553,7 +733,12 @@ fn caller_body(case: &Case, shared: &Arc<Shared>, gates: &Arc<Gates>, w: &Arc<Wa
                     std::thread::sleep(Duration::from_micros(20));
                 }
             };
-            if complete {
+            if complete && armed.is_some() {
+                shared.push('G', vec![]);
+                cout.gone_seen += 1;
+            } else if armed.is_some() {
+                cout.gone_missed += 1;
+            } else if complete {
                 shared.push('Q', vec![]);
                 w.quiet_seen.fetch_add(1, SeqCst);
                 // … and until the job itself is over (its worker parked again): steering only,
@@ -585,10 +770,17 @@ fn caller_body(case: &Case, shared: &Arc<Shared>, gates: &Arc<Gates>, w: &Arc<Wa
         let polls = if *a == AOp::Spin { 60 } else { 1 };
         for _ in 0..polls {
             let mut latch = None;
-            if let AOp::Dispatch { gate, queue, .. } = a {
+            if let AOp::Dispatch { gate, queue, panic, .. } = a {
                 for t in gate {
                     if staged.contains(t) {
                         gates.close(*t, n_dispatch);
+                    }
+                }
+                if let Some((t, mode)) = panic {
+                    if staged.contains(t) && armed.is_none() {
+                        // system `t` panics in the run that `n_dispatch` earlier ones precede
+                        shared.behav[*t].panic_only_run.store(n_dispatch + 1, SeqCst);
+                        shared.behav[*t].panic_mode.store(*mode as usize, SeqCst);
                     }
                 }
                 if *queue {
@@ -610,54 +802,70 @@ fn caller_body(case: &Case, shared: &Arc<Shared>, gates: &Arc<Gates>, w: &Arc<Wa
                     w.holds.lock().unwrap().push(Hold { disp: n_dispatch, gate, latch: latch.clone(), left });
                 }
             }
-            shared.push('C', vec![a.code()]);
+            if let AOp::WaitPanic { tag, mode } = a {
+                if tls.contains(tag) {
+                    // only the calling thread runs thread-local systems: their counters are exact
+                    let b = &shared.behav[*tag];
+                    b.panic_only_run.store(b.runs.load(SeqCst) + 1, SeqCst);
+                    b.panic_mode.store(*mode as usize, SeqCst);
+                }
+            }
             if a.blocking() {
                 entered.fetch_add(1, SeqCst);
             }
-            seq += 1;
-            w.cur_op.store(a.code(), SeqCst);
-            w.entered.store(seq, SeqCst);
+            let panics_before = pool_panics.load(SeqCst);
             #[allow(deprecated)]
-            let res = catch_unwind(AssertUnwindSafe(|| match a {
+            // (`setup` needs `BorrowMut<World>`: with `Arc<World>` the script calls `world` instead)
+            let code = if case.arc && *a == AOp::Setup { 4 } else { a.code() };
+            let res = call(&mut d, &mut seq, &mut cout.unwinds, code, &mut |d: &mut Disp| match a {
                 AOp::Dispatch { .. } => {
-                    with_d!(&mut d, x => x.dispatch());
+                    with_d!(d, x => x.dispatch());
                     false
                 }
-                AOp::Running | AOp::Spin => with_d!(&mut d, x => x.running()),
-                AOp::Wait => {
-                    with_d!(&mut d, x => x.wait());
+                AOp::Running | AOp::Spin => with_d!(d, x => x.running()),
+                AOp::Wait | AOp::WaitPanic { .. } => {
+                    with_d!(d, x => x.wait());
                     false
                 }
                 AOp::WaitNoTl => {
-                    with_d!(&mut d, x => x.wait_without_tl());
+                    with_d!(d, x => x.wait_without_tl());
                     false
                 }
                 AOp::World => {
-                    with_d!(&mut d, x => {
+                    with_d!(d, x => {
                         let _ = x.world();
                     });
                     false
                 }
                 AOp::Res => {
-                    with_d!(&mut d, x => {
+                    with_d!(d, x => {
                         let _ = x.res();
                     });
                     false
                 }
                 AOp::WorldMut => {
-                    with_d!(&mut d, x => {
+                    with_d!(d, x => {
                         let _ = x.world_mut();
                     });
                     false
                 }
+                AOp::Mutate { plan } => {
+                    match d {
+                        Disp::Plain(x) => sr_mutate(x.world_mut(), plan),
+                        Disp::Shared(x) => {
+                            let _ = x.world_mut();
+                        }
+                    }
+                    false
+                }
                 AOp::MutRes => {
-                    with_d!(&mut d, x => {
+                    with_d!(d, x => {
                         let _ = x.mut_res();
                     });
                     false
                 }
                 AOp::Setup => {
-                    match &mut d {
+                    match d {
                         Disp::Plain(x) => x.setup(),
                         Disp::Shared(x) => {
                             let _ = x.world();
@@ -666,25 +874,69 @@ fn caller_body(case: &Case, shared: &Arc<Shared>, gates: &Arc<Gates>, w: &Arc<Wa
                     false
                 }
                 AOp::Settle => false,
-            }));
-            // the state at the moment of the return, before anything else is done
-            let inside = shared.inside.load(SeqCst);
-            let done = fin(gates);
-            w.returned.store(seq, SeqCst);
-            match res {
-                Ok(v) => shared.push('R', vec![a.code(), v as usize, inside, done as usize]),
-                Err(p) => {
-                    panicked = Some(format!("{} panicked: {}", OPS[a.code()], panic_message(&p)));
-                    if let Some(l) = latch {
-                        l.open();
+            });
+            if let AOp::WaitPanic { tag, .. } = a {
+                if let Some(b) = shared.behav.get(*tag) {
+                    if tls.contains(tag) {
+                        b.panic_mode.store(0, SeqCst);
                     }
-                    break 'script;
+                }
+            }
+            if let (AOp::Mutate { plan }, Some(_), false) = (a, res, case.arc) {
+                shared.push('M', plan.clone());
+            }
+            if let (AOp::Setup, Some(_), false) = (a, res, case.arc) {
+                // what `setup` left in the world: a `world()` call like any other (on the unchanged
+                // crate it finds `Data::Inner` and returns at once)
+                let mut seen = vec![];
+                let r2 = call(&mut d, &mut seq, &mut cout.unwinds, 4, &mut |d: &mut Disp| {
+                    if let Disp::Plain(x) = d {
+                        seen = sr_probe(x.world());
+                    }
+                    false
+                });
+                if r2.is_some() {
+                    shared.push('V', seen);
                 }
             }
             w.op_returned(gates);
-            if let AOp::Dispatch { gate, rel, .. } = a {
+            if let AOp::Dispatch { gate, rel, panic, .. } = a {
                 let my = n_dispatch;
+                if res.is_none() {
+                    // no job was spawned: what was prepared for it is taken back
+                    let mine: Vec<Hold> = {
+                        let mut hs = w.holds.lock().unwrap();
+                        let (m, rest): (Vec<Hold>, Vec<Hold>) = std::mem::take(&mut *hs).into_iter().partition(|h| h.disp == my);
+                        *hs = rest;
+                        m
+                    };
+                    for h in &mine {
+                        for t in &h.gate {
+                            gates.open(*t, my);
+                        }
+                        if let Some(l) = &h.latch {
+                            l.open();
+                        }
+                    }
+                    if let Some(l) = &latch {
+                        l.open();
+                    }
+                    for t in gate {
+                        gates.open(*t, my);
+                    }
+                    if let (Some((t, _)), None) = (panic, armed) {
+                        if let Some(b) = shared.behav.get(*t) {
+                            b.panic_mode.store(0, SeqCst);
+                        }
+                    }
+                    continue;
+                }
                 n_dispatch += 1;
+                if let Some((t, _)) = panic {
+                    if staged.contains(t) && armed.is_none() {
+                        armed = Some(panics_before);
+                    }
+                }
                 let gate: Vec<usize> = gate.iter().cloned().filter(|t| staged.contains(t)).collect();
                 if matches!(rel, Rel::Obs(_)) && !gate.is_empty() && latch.is_none() {
                     // "certainly still running": go on only when a held system is really inside
@@ -738,8 +990,7 @@ fn caller_body(case: &Case, shared: &Arc<Shared>, gates: &Arc<Gates>, w: &Arc<Wa
                 }
             }
             if *a == AOp::Spin {
-                let last_false = shared.log.lock().unwrap().last().map(|e| e.kind == 'R' && e.inst.get(1) == Some(&0)).unwrap_or(true);
-                if last_false {
+                if res != Some(true) {
                     break;
                 }
                 std::thread::sleep(Duration::from_micros(50));
@@ -760,7 +1011,24 @@ fn caller_body(case: &Case, shared: &Arc<Shared>, gates: &Arc<Gates>, w: &Arc<Wa
     let _ = catch_unwind(AssertUnwindSafe(|| with_d!(&mut d, x => x.wait_without_tl())));
     w.returned.store(seq, SeqCst);
     drop(d);
-    panicked
+    if let Some(before) = armed {
+        // the panic handler of this case's job must not be taken for the next case's
+        let t0 = Instant::now();
+        let mut idle_run = 0;
+        while pool_panics.load(SeqCst) <= before && t0.elapsed() < Duration::from_millis(watchdog_ms) {
+            if all_parked(ptids) == Some(true) {
+                idle_run += 1;
+                if idle_run >= 8 {
+                    break;
+                }
+                std::thread::sleep(Duration::from_micros(200));
+            } else {
+                idle_run = 0;
+                std::thread::sleep(Duration::from_micros(20));
+            }
+        }
+    }
+    cout
 }
 
 /// runs the operation sequence on the real dispatcher (on a thread of its own) and watches it;
@@ -798,11 +1066,11 @@ pub fn run_real(case: &Case, shared: &Arc<Shared>, env: &Env, skip: &[usize]) ->
         abandoned: AtomicBool::new(false),
     });
     let mut out = RunOut::default();
-    let (tx, rx) = mpsc::channel::<Option<String>>();
+    let (tx, rx) = mpsc::channel::<CallerOut>();
     let handle = {
-        let (case, shared, gates, w, pool, ptids, skip, wd) = (case.clone(), shared.clone(), gates.clone(), w.clone(), pool.clone(), ptids.clone(), skip.to_vec(), env.watchdog_ms);
+        let (case, shared, gates, w, pool, ptids, skip, wd, pp) = (case.clone(), shared.clone(), gates.clone(), w.clone(), pool.clone(), ptids.clone(), skip.to_vec(), env.watchdog_ms, env.pool_panics.clone());
         std::thread::Builder::new().name("asyncd-caller".into()).spawn(move || {
-            let r = caller_body(&case, &shared, &gates, &w, &pool, &ptids, &skip, wd);
+            let r = caller_body(&case, &shared, &gates, &w, &pool, &ptids, &skip, wd, &pp);
             let _ = tx.send(r);
         })
     };
@@ -821,7 +1089,10 @@ pub fn run_real(case: &Case, shared: &Arc<Shared>, env: &Env, skip: &[usize]) ->
     loop {
         match rx.recv_timeout(Duration::from_micros(30)) {
             Ok(p) => {
-                out.panicked = p;
+                out.panicked = p.failed;
+                out.unwinds = p.unwinds;
+                out.gone_seen = p.gone_seen;
+                out.gone_missed = p.gone_missed;
                 let _ = handle.join();
                 break;
             }
@@ -918,6 +1189,20 @@ pub fn run_real(case: &Case, shared: &Arc<Shared>, env: &Env, skip: &[usize]) ->
                 out.log.push(Ent::Ret(e.inst[0], e.inst[1] != 0));
             }
             'Q' => out.log.push(Ent::Quiet),
+            'G' => out.log.push(Ent::Gone),
+            'U' => {
+                out.snaps.push((out.log.len(), e.inst.get(2).cloned().unwrap_or(0), e.inst.get(3).cloned().unwrap_or(0) as u64));
+                out.log.push(Ent::Unwound(e.inst[0], e.inst[1]));
+            }
+            'S' => out.log.push(Ent::Hook { tag: e.inst[0], th: e.th }),
+            'M' => out.log.push(Ent::Mutated(e.inst.clone())),
+            'V' => out.log.push(Ent::Probed(e.inst.clone())),
+            'P' => {
+                // the run it belongs to is the one its F opened
+                let tag = *e.inst.last().unwrap_or(&0);
+                let d = cnt.get(&('F', tag)).cloned().unwrap_or(1).saturating_sub(1);
+                out.log.push(Ent::Sys { k: 'P', tag, th: e.th, d });
+            }
             k => {
                 let tag = *e.inst.last().unwrap_or(&0);
                 let c = cnt.entry((k, tag)).or_insert(0);
@@ -939,9 +1224,33 @@ pub fn impl_oracles(case: &Case, skip: &[usize], out: &RunOut) -> Vec<(String, S
     let tls = case.tls();
     let mut nf: BTreeMap<usize, usize> = staged.iter().map(|t| (*t, 0)).collect();
     let mut nd: BTreeMap<usize, usize> = nf.clone();
-    let mut tl_runs: BTreeMap<usize, usize> = tls.iter().map(|t| (*t, 0)).collect();
-    let (mut calls, mut rets, mut waits) = (0usize, 0usize, 0usize);
+    // windows closed by an injected panic
+    let mut np: BTreeMap<usize, usize> = nf.clone();
+    let (mut calls, mut rets, mut wait_calls) = (0usize, 0usize, 0usize);
     let mut cur: Option<usize> = None;
+    // the panics the script injects: into the j-th `dispatch` call / the j-th `wait` call
+    let disp_specs: Vec<Option<(usize, u8)>> = case.aops.iter().filter_map(|a| if let AOp::Dispatch { panic, .. } = a { Some(*panic) } else { None }).collect();
+    let wait_specs: Vec<Option<(usize, u8)>> = case
+        .aops
+        .iter()
+        .filter_map(|a| match a {
+            AOp::Wait => Some(None),
+            AOp::WaitPanic { tag, mode } => Some(Some((*tag, *mode))),
+            _ => None,
+        })
+        .collect();
+    // (system, index in the log) of the first ordinary system that panicked
+    let mut job_panic: Option<(usize, usize)> = None;
+    // the thread-local events of the current `wait`
+    let mut wait_seq: Vec<(char, usize)> = vec![];
+    let mut tl_expected_runs: BTreeMap<usize, u64> = tls.iter().map(|t| (*t, 0)).collect();
+    // setup: hooks called in the current `setup`, the setup resources as the harness knows them
+    // (0 absent, v + 1), what the look at the world after the latest `setup` must find
+    let hooked: Vec<usize> = staged.iter().chain(tls.iter()).cloned().collect();
+    let needed: Vec<usize> = (0..NSR).filter(|k| hooked.iter().any(|t| t % NSR == *k)).collect();
+    let mut hooks: BTreeMap<usize, usize> = BTreeMap::new();
+    let mut sr: Vec<usize> = vec![0; NSR];
+    let mut unwinds = out.unwinds.iter();
     let mut add = |class: &str, what: String| {
         if !v.iter().any(|(c, _)| c == class) {
             v.push((class.to_string(), what));
@@ -950,9 +1259,11 @@ pub fn impl_oracles(case: &Case, skip: &[usize], out: &RunOut) -> Vec<(String, S
     if let Some(p) = &out.panicked {
         add("panic", format!("a dispatcher operation panicked: {}", p));
     }
+    let full_tl: Vec<(char, usize)> = tls.iter().flat_map(|t| vec![('F', *t), ('D', *t)]).collect();
+    let show_seq = |q: &[(char, usize)]| q.iter().map(|(k, t)| format!("{}{}", k, t)).collect::<Vec<_>>().join(" ");
     let snaps: BTreeMap<usize, (usize, u64)> = out.snaps.iter().map(|(i, a, b)| (*i, (*a, *b))).collect();
     for (i, e) in out.log.iter().enumerate() {
-        let open: Vec<usize> = staged.iter().cloned().filter(|t| nf[t] > nd[t]).collect();
+        let open: Vec<usize> = staged.iter().cloned().filter(|t| nf[t] > nd[t] + np[t]).collect();
         // counters read at the moment the call returned (independent of the order of the log)
         if let (Ent::Ret(o, val), Some((inside, done))) = (e, snaps.get(&i)) {
             let want = (rets * staged.len()) as u64;
@@ -978,6 +1289,10 @@ pub fn impl_oracles(case: &Case, skip: &[usize], out: &RunOut) -> Vec<(String, S
                 }
             }
         }
+        let panicked_note = |jp: &Option<(usize, usize)>| match jp {
+            Some((t, at)) => format!(" (system {} of dispatch #{} panicked at log[{}]; that dispatch never completes)", t, rets.saturating_sub(1), at),
+            None => String::new(),
+        };
         match e {
             Ent::Quiet => {
                 // the harness's own reading of the completion counters; nothing may start after it
@@ -985,11 +1300,97 @@ pub fn impl_oracles(case: &Case, skip: &[usize], out: &RunOut) -> Vec<(String, S
                     add("harness", format!("log[{}]: completion signal while system(s) {:?} are inside run", i, open));
                 }
             }
+            Ent::Gone => {
+                if job_panic.is_none() {
+                    add("harness", format!("log[{}]: the pool's panic handler was seen although no system has panicked", i));
+                } else if !open.is_empty() {
+                    add("job-unwound-while-open", format!("log[{}]: the job's closure has been unwound (panic handler called) while system(s) {:?} are inside run", i, open));
+                }
+            }
+            Ent::Mutated(plan) => {
+                for (k, p) in plan.iter().enumerate().take(NSR) {
+                    match *p {
+                        0 => {}
+                        1 => sr[k] = 0,
+                        x => sr[k] = x - 1,
+                    }
+                }
+            }
+            Ent::Probed(seen) => {
+                // the look at the world that follows a `setup` that returned
+                for k in 0..NSR {
+                    let (before, now) = (sr[k], seen.get(k).cloned().unwrap_or(0));
+                    let users: Vec<usize> = hooked.iter().cloned().filter(|t| t % NSR == k).collect();
+                    if before != 0 && now != before {
+                        add("setup-overwrite", format!("log[{}]: setup() changed a resource that already existed: Sr<{}> was {} before setup() and is {} after it", i, k, before - 1, if now == 0 { "absent".to_string() } else { (now - 1).to_string() }));
+                    } else if before == 0 && needed.contains(&k) && now == 0 {
+                        add("setup-resource", format!("log[{}]: after setup() returned the default-provided resource Sr<{}> of system(s) {:?} does not exist", i, k, users));
+                    } else if before == 0 && needed.contains(&k) && now != sr_default(k) as usize + 1 {
+                        add("setup-resource", format!("log[{}]: after setup() the resource Sr<{}> of system(s) {:?} is {} instead of its default {}", i, k, users, now - 1, sr_default(k)));
+                    } else if before == 0 && !needed.contains(&k) && now != 0 {
+                        add("setup-resource", format!("log[{}]: setup() created Sr<{}>, which no system asks for", i, k));
+                    }
+                    sr[k] = now;
+                }
+            }
+            Ent::Hook { tag, th } => {
+                *hooks.entry(*tag).or_insert(0) += 1;
+                if cur != Some(6) {
+                    add("setup-hooks", format!("log[{}]: the setup hook of system {} is called outside setup (caller is in {:?})", i, tag, cur.map(|o| OPS[o])));
+                }
+                if *th != 'c' {
+                    add("setup-hooks", format!("log[{}]: the setup hook of system {} runs on thread class '{}'", i, tag, th));
+                }
+                if !open.is_empty() || staged.iter().any(|t| nd[t] != rets) {
+                    add("setup-before-finish", format!("log[{}]: the setup hook of system {} is called while the dispatched systems have not finished (open {:?}){}", i, tag, open, panicked_note(&job_panic)));
+                }
+            }
             Ent::Call(o) => {
                 cur = Some(*o);
                 if *o == 0 {
                     calls += 1;
                 }
+                if *o == 1 {
+                    wait_calls += 1;
+                    wait_seq.clear();
+                }
+                if *o == 6 {
+                    hooks.clear();
+                }
+            }
+            Ent::Unwound(o, kind) => {
+                let msg = unwinds.next().cloned().unwrap_or_default();
+                let spec = if *o == 1 { wait_specs.get(wait_calls.wrapping_sub(1)).cloned().flatten().filter(|(t, _)| tls.contains(t)) } else { None };
+                if job_panic.is_some() {
+                    // whatever is called after a system of the job has panicked may unwind
+                } else if let (1, Some((t, mode))) = (*o, spec) {
+                    // the thread-local systems in front of `t` ran, `t` started and was unwound,
+                    // the ones behind it did not start
+                    let mut want: Vec<(char, usize)> = vec![];
+                    for x in &tls {
+                        if *x == t {
+                            break;
+                        }
+                        want.push(('F', *x));
+                        want.push(('D', *x));
+                        *tl_expected_runs.get_mut(x).unwrap() += 1;
+                    }
+                    want.push(('F', t));
+                    want.push(('P', t));
+                    if mode == 1 {
+                        *tl_expected_runs.get_mut(&t).unwrap() += 1;
+                    }
+                    if *kind != 1 {
+                        add("panic", format!("log[{}]: wait() unwound with `{}` instead of the panic of thread-local system {}", i, msg, t));
+                    }
+                    if wait_seq != want {
+                        let class = if wait_seq.len() != want.len() { "tl-count" } else { "tl-order" };
+                        add(class, format!("log[{}]: thread-local system {} panicked inside wait(); the thread-local events of that wait are [{}], expected [{}]", i, t, show_seq(&wait_seq), show_seq(&want)));
+                    }
+                } else {
+                    add("panic", format!("log[{}]: {}() panicked: {}", i, OPS[*o], msg));
+                }
+                cur = None;
             }
             Ent::Ret(o, val) => {
                 cur = None;
@@ -999,13 +1400,13 @@ pub fn impl_oracles(case: &Case, skip: &[usize], out: &RunOut) -> Vec<(String, S
                             if !open.is_empty() {
                                 add("running-false-while-open", format!("log[{}]: running() returned false while system(s) {:?} are inside run", i, open));
                             } else if let Some(t) = staged.iter().find(|t| nd[t] != rets || nf[t] != rets) {
-                                add("running-false-before-done", format!("log[{}]: running() returned false but system {} has started {} / finished {} times for {} dispatches", i, t, nf[t], nd[t], rets));
+                                add("running-false-before-done", format!("log[{}]: running() returned false but system {} has started {} / finished {} times for {} dispatches{}", i, t, nf[t], nd[t], rets, panicked_note(&job_panic)));
                             }
                         }
                     }
                     0 => {
                         if let Some(t) = staged.iter().find(|t| nd[t] < rets || nf[t] > rets + 1) {
-                            add("dispatch-overtakes", format!("log[{}]: dispatch #{} returned but system {} has started {} / finished {} times", i, rets, t, nf[t], nd[t]));
+                            add("dispatch-overtakes", format!("log[{}]: dispatch #{} returned but system {} has started {} / finished {} times{}", i, rets, t, nf[t], nd[t], panicked_note(&job_panic)));
                         }
                         rets += 1;
                     }
@@ -1013,20 +1414,32 @@ pub fn impl_oracles(case: &Case, skip: &[usize], out: &RunOut) -> Vec<(String, S
                         if !open.is_empty() {
                             add("accessor-while-open", format!("log[{}]: {} returned while system(s) {:?} are inside run", i, OPS[*o], open));
                         } else if let Some(t) = staged.iter().find(|t| nd[t] != rets || nf[t] != rets) {
-                            add("accessor-before-done", format!("log[{}]: {} returned after {} dispatches but system {} has started {} / finished {} times", i, OPS[*o], rets, t, nf[t], nd[t]));
+                            add("accessor-before-done", format!("log[{}]: {} returned after {} dispatches but system {} has started {} / finished {} times{}", i, OPS[*o], rets, t, nf[t], nd[t], panicked_note(&job_panic)));
                         }
                         if *o == 1 {
-                            waits += 1;
-                            if let Some(t) = tls.iter().find(|t| tl_runs[t] != 2 * waits) {
-                                add("tl-count", format!("log[{}]: after {} wait(s) thread-local system {} has logged {} events", i, waits, t, tl_runs[t]));
+                            for t in &tls {
+                                *tl_expected_runs.get_mut(t).unwrap() += 1;
                             }
+                            if wait_seq != full_tl {
+                                let class = if wait_seq.len() != full_tl.len() { "tl-count" } else { "tl-order" };
+                                add(class, format!("log[{}]: wait #{} returned; its thread-local events are [{}], expected [{}] (every thread-local system once, in registration order)", i, wait_calls, show_seq(&wait_seq), show_seq(&full_tl)));
+                            }
+                        }
+                        if *o == 6 {
+                            for t in &hooked {
+                                let n = hooks.get(t).cloned().unwrap_or(0);
+                                if n != 1 {
+                                    add("setup-hooks", format!("log[{}]: setup() returned having called the setup hook of system {} {} times (hooks called: {:?})", i, t, n, hooks));
+                                }
+                            }
+                            // what the look at the world that follows must find is judged there
                         }
                     }
                 }
             }
             Ent::Sys { k, tag, th, .. } => {
                 if tls.contains(tag) {
-                    *tl_runs.get_mut(tag).unwrap() += 1;
+                    wait_seq.push((*k, *tag));
                     if cur != Some(1) {
                         add("tl-outside-wait", format!("log[{}]: thread-local system {} logs {} outside wait (caller is in {:?})", i, tag, k, cur.map(|o| OPS[o])));
                     }
@@ -1034,7 +1447,13 @@ pub fn impl_oracles(case: &Case, skip: &[usize], out: &RunOut) -> Vec<(String, S
                         add("tl-thread", format!("log[{}]: thread-local system {} runs on thread class '{}'", i, tag, th));
                     }
                     if !open.is_empty() || staged.iter().any(|t| nd[t] != rets) {
-                        add("tl-before-finish", format!("log[{}]: thread-local system {} logs {} while the dispatched systems have not finished (open {:?})", i, tag, k, open));
+                        add("tl-before-finish", format!("log[{}]: thread-local system {} logs {} while the dispatched systems have not finished (open {:?}){}", i, tag, k, open, panicked_note(&job_panic)));
+                    }
+                    if *k == 'P' {
+                        let injected = cur == Some(1) && wait_specs.get(wait_calls.wrapping_sub(1)).cloned().flatten().map(|(t, _)| t) == Some(*tag);
+                        if !injected {
+                            add("panic", format!("log[{}]: thread-local system {} panicked", i, tag));
+                        }
                     }
                 } else if staged.contains(tag) {
                     if *k == 'F' {
@@ -1043,30 +1462,40 @@ pub fn impl_oracles(case: &Case, skip: &[usize], out: &RunOut) -> Vec<(String, S
                             add("run-without-dispatch", format!("log[{}]: system {} starts run #{} but dispatch was called {} times", i, tag, d + 1, calls));
                         }
                         if let Some(t) = staged.iter().find(|t| nd[t] < d) {
-                            add("dispatch-overtakes", format!("log[{}]: system {} starts for dispatch #{} while system {} has finished only {} times", i, tag, d, t, nd[t]));
+                            add("dispatch-overtakes", format!("log[{}]: system {} starts for dispatch #{} while system {} has finished only {} times{}", i, tag, d, t, nd[t], panicked_note(&job_panic)));
                         }
                         *nf.get_mut(tag).unwrap() += 1;
                     } else if *k == 'D' {
                         *nd.get_mut(tag).unwrap() += 1;
-                        if nd[tag] > nf[tag] {
+                        if nd[tag] + np[tag] > nf[tag] {
                             add("drop-without-fetch", format!("log[{}]: system {} finishes more often than it starts", i, tag));
                         }
                     } else {
-                        add("panic", format!("log[{}]: system {} panicked", i, tag));
+                        let injected = disp_specs.iter().take(calls).any(|s| s.map(|(t, _)| t) == Some(*tag));
+                        if injected {
+                            *np.get_mut(tag).unwrap() += 1;
+                            if job_panic.is_none() {
+                                job_panic = Some((*tag, i));
+                            }
+                        } else {
+                            add("panic", format!("log[{}]: system {} panicked", i, tag));
+                        }
                     }
                 }
             }
         }
     }
-    if out.panicked.is_none() {
-        for t in &staged {
-            if out.runs.get(t).cloned().unwrap_or(0) != rets as u64 {
-                add("run-count", format!("system {} ran {} times for {} dispatches", t, out.runs.get(t).cloned().unwrap_or(0), rets));
+    if out.panicked.is_none() && out.hang.is_none() {
+        if job_panic.is_none() {
+            for t in &staged {
+                if out.runs.get(t).cloned().unwrap_or(0) != rets as u64 {
+                    add("run-count", format!("system {} ran {} times for {} dispatches", t, out.runs.get(t).cloned().unwrap_or(0), rets));
+                }
             }
         }
         for t in &tls {
-            if out.runs.get(t).cloned().unwrap_or(0) != waits as u64 {
-                add("tl-count", format!("thread-local system {} ran {} times for {} waits", t, out.runs.get(t).cloned().unwrap_or(0), waits));
+            if out.runs.get(t).cloned().unwrap_or(0) != tl_expected_runs[t] {
+                add("tl-count", format!("thread-local system {} entered run {} times; the waits of this history make it {}", t, out.runs.get(t).cloned().unwrap_or(0), tl_expected_runs[t]));
             }
         }
     }
@@ -1082,7 +1511,11 @@ pub fn model_check(drv: &mut Drv, layout: &str, log: &[Ent]) -> Option<String> {
         return Some(format!("asyncd begin answered `{}`", a));
     }
     for (i, e) in log.iter().enumerate() {
-        let a = drv.ask(&format!("asyncd {}", e.show()));
+        let line = match e.model_line() {
+            Some(l) => l,
+            None => continue,
+        };
+        let a = drv.ask(&format!("asyncd {}", line));
         if a != "ok" {
             let from = i.saturating_sub(6);
             let ctx: Vec<String> = log[from..=i].iter().map(|e| e.show()).collect();
@@ -1159,13 +1592,22 @@ fn shrink_case(case: &Case, pred: &mut dyn FnMut(&Case) -> bool) -> Case {
     }
     // gates and holds
     for i in 0..cur.aops.len() {
-        if let AOp::Dispatch { gate, rel, queue } = cur.aops[i].clone() {
+        if let AOp::Dispatch { gate, rel, queue, panic } = cur.aops[i].clone() {
             let mut j = 0;
             let mut gate = gate;
             let mut queue = queue;
+            let mut panic = panic;
+            if panic.is_some() {
+                let mut c = cur.clone();
+                c.aops[i] = AOp::Dispatch { gate: gate.clone(), rel: rel.clone(), queue, panic: None };
+                if pred(&c) {
+                    cur = c;
+                    panic = None;
+                }
+            }
             if queue {
                 let mut c = cur.clone();
-                c.aops[i] = AOp::Dispatch { gate: gate.clone(), rel: rel.clone(), queue: false };
+                c.aops[i] = AOp::Dispatch { gate: gate.clone(), rel: rel.clone(), queue: false, panic };
                 if pred(&c) {
                     cur = c;
                     queue = false;
@@ -1175,13 +1617,22 @@ fn shrink_case(case: &Case, pred: &mut dyn FnMut(&Case) -> bool) -> Case {
                 let mut g2 = gate.clone();
                 g2.remove(j);
                 let mut c = cur.clone();
-                c.aops[i] = AOp::Dispatch { gate: g2.clone(), rel: rel.clone(), queue };
+                c.aops[i] = AOp::Dispatch { gate: g2.clone(), rel: rel.clone(), queue, panic };
                 if pred(&c) {
                     cur = c;
                     gate = g2;
                 } else {
                     j += 1;
                 }
+            }
+        }
+    }
+    for i in 0..cur.aops.len() {
+        if matches!(cur.aops[i], AOp::WaitPanic { .. }) {
+            let mut c = cur.clone();
+            c.aops[i] = AOp::Wait;
+            if pred(&c) {
+                cur = c;
             }
         }
     }
@@ -1215,14 +1666,22 @@ struct Shape {
     second_disp_open: u64,
     /// (entry point, context) of every call: context = the job of the latest dispatch was …
     /// 0 idle (already observed complete) / 1 inside run / 2 not started / 3 finished on its own, unobserved
+    /// / 4 a system of it has panicked and the harness has seen the pool's panic handler (the sender
+    /// is gone) / 5 a system of it has panicked, the job is still being unwound or was not seen to end
     ctxs: Vec<(usize, usize)>,
+    tl_panics: u64,
+    job_panics: u64,
+    unwound_sender: u64,
+    unwound_tl: u64,
+    setups: u64,
     /// (first entry point to look at a dispatch that finished on its own, a later entry point
     /// issued while a system of a later dispatch was inside run or its job had not started)
     pairs: Vec<(usize, usize)>,
 }
 fn shape(case: &Case, log: &[Ent]) -> Shape {
     let tls = case.tls();
-    let mut sh = Shape { run_true: 0, run_false: 0, entered_open: 0, second_disp_open: 0, ctxs: vec![], pairs: vec![] };
+    let mut sh = Shape { run_true: 0, run_false: 0, entered_open: 0, second_disp_open: 0, ctxs: vec![], pairs: vec![], tl_panics: 0, job_panics: 0, unwound_sender: 0, unwound_tl: 0, setups: 0 };
+    let (mut panicked, mut gone) = (false, false);
     let mut open = 0i64;
     // state of the latest dispatch as the harness knows it from the log
     let (mut started, mut pending_disp, mut unobserved_quiet) = (false, false, false);
@@ -1234,14 +1693,35 @@ fn shape(case: &Case, log: &[Ent]) -> Shape {
                 started = true;
             }
             Ent::Sys { k: 'D', tag, .. } if !tls.contains(tag) => open -= 1,
+            Ent::Sys { k: 'P', tag, .. } if !tls.contains(tag) => {
+                open -= 1;
+                panicked = true;
+                sh.job_panics += 1;
+            }
+            Ent::Sys { k: 'P', .. } => sh.tl_panics += 1,
             Ent::Sys { .. } => {}
+            Ent::Gone => gone = true,
+            Ent::Hook { .. } | Ent::Mutated(_) => {}
+            Ent::Probed(_) => sh.setups += 1,
+            Ent::Unwound(_, kind) => {
+                pending_disp = false;
+                if *kind == 0 {
+                    sh.unwound_sender += 1;
+                } else if *kind == 1 {
+                    sh.unwound_tl += 1;
+                }
+            }
             Ent::Quiet => {
                 if pending_disp {
                     unobserved_quiet = true;
                 }
             }
             Ent::Call(o) => {
-                let ctx = if open > 0 {
+                let ctx = if gone {
+                    4
+                } else if panicked {
+                    5
+                } else if open > 0 {
                     1
                 } else if pending_disp && !started {
                     2
@@ -1296,8 +1776,8 @@ pub fn run(args: &Args, rep: &mut Report) {
     let mut drv = Drv::spawn(&args.str("driver", "/verif/lean/.lake/build/bin/driver"));
     let env = Env::new(watchdog_ms, hang_ms);
     // while a stuck case is being made smaller a shorter observation period is enough
-    let env_shrink = Env { pools: env.pools.clone(), tids: env.tids.clone(), watchdog_ms, hang_ms: hang_ms.min(1200) };
-    rep.rule = "(a) histories: every sequence of `hist` steps, a step = one of the 9 public methods of AsyncDispatcher (dispatch / wait / wait_without_tl / running / world / world_mut / setup / res / mut_res) issued in one of 4 contexts — idle; held: after a fresh dispatch with a system kept inside run; queued: after a fresh dispatch whose job cannot start; settled: after a fresh dispatch that finished on its own (the harness waits for the systems' own completion signal and an idle pool, no dispatcher method) — on 8 fixed plans / pools / world types; (b) flat registration sequences (profile flat + thread-local systems) × random sequences of ≤ max-ops such operations plus spin and settle (World or Arc<World>, pool of 1-4 threads), per-dispatch gates / queued jobs released after n further operations, by timer, or after the caller entered its next blocking operation. Held systems are released only when the operation under test has returned or the calling thread has been seen parked inside it. distinct = distinct case texts; non-trivial = an entry point was issued while a system was inside run / the job had not started / the job had finished on its own unobserved".into();
+    let env_shrink = Env { pools: env.pools.clone(), tids: env.tids.clone(), watchdog_ms, hang_ms: hang_ms.min(1200), pool_panics: env.pool_panics.clone() };
+    rep.rule = "(a) histories: every sequence of `hist` steps, a step = an entry point — one of the 9 public methods of AsyncDispatcher (dispatch / wait / wait_without_tl / running / world / world_mut / setup / res / mut_res), or wait with a panic injected into the first / the last thread-local system — issued in one of 6 contexts — idle; held: after a fresh dispatch with a system kept inside run; queued: after a fresh dispatch whose job cannot start; settled: after a fresh dispatch that finished on its own (the harness waits for the systems' own completion signal and an idle pool, no dispatcher method); panicked: after a fresh dispatch in which an ordinary system panicked (in fetch or inside run) and the pool's panic handler has been seen; panicking: after such a dispatch while another system (or the panicking one) is still held inside run — on 8 fixed plans / pools / world types; every setup is preceded by a mutate (the default-provided resources of the setup hooks removed / replaced through world_mut()) and followed by a look at the world; hist = 1 runs every step on all plans with both places of a panic; (b) flat registration sequences (profile flat + thread-local systems) × random sequences of ≤ max-ops such operations plus spin, settle and mutate (World or Arc<World>, pool of 1-4 threads, all with a panic handler), per-dispatch gates / queued jobs released after n further operations, by timer, or after the caller entered its next blocking operation, 12 % of the dispatches with a panicking system, 30 % of the waits with a panicking thread-local system; the script always goes on after a panic. Held systems are released only when the operation under test has returned or the calling thread has been seen parked inside it. distinct = distinct case texts; non-trivial = an entry point was issued while a system was inside run / the job had not started / the job had finished on its own unobserved / a system of the job had panicked".into();
     let mut todo: Vec<(String, Case)> = vec![];
     if let Some(f) = args.get("replay") {
         let text = std::fs::read_to_string(&f).expect("replay file");
@@ -1321,8 +1801,16 @@ pub fn run(args: &Args, rep: &mut Report) {
             let total = STEPS.pow(hist as u32);
             let mut i = seed % hist_stride;
             while i < total {
-                todo.push((format!("hist:{}:{}", hist, i), hist_case(i, hist, i / hist_stride + seed)));
-                rep.count("history_cases");
+                if hist == 1 {
+                    // single steps: on every plan / pool / world type, with both places of a panic
+                    for v in 0..VARIANTS {
+                        todo.push((format!("hist:1:{}:v{}", i, v), hist_case(i, 1, v)));
+                        rep.count("history_cases");
+                    }
+                } else {
+                    todo.push((format!("hist:{}:{}", hist, i), hist_case(i, hist, i / hist_stride + seed)));
+                    rep.count("history_cases");
+                }
                 i += hist_stride;
             }
         }
@@ -1352,19 +1840,27 @@ pub fn run(args: &Args, rep: &mut Report) {
         for e in &ev.out.log {
             match e {
                 Ent::Sys { tag, .. } if case.tls().contains(tag) => rep.count("thread_local_events"),
+                Ent::Hook { .. } => rep.count("setup_hook_events"),
+                Ent::Gone => rep.count("panic_handler_seen_for_the_job"),
                 Ent::Call(o) => rep.count(&format!("op_{}", OPS[*o])),
                 Ent::Quiet => rep.count("quiet_completion_signal_seen"),
                 _ => {}
             }
         }
         for (o, c) in &sh.ctxs {
-            rep.count(&format!("ctx_{}_{}", ["job_observed_complete", "system_inside_run", "job_not_started", "finished_on_its_own_unobserved"][*c], OPS[*o]));
+            rep.count(&format!("ctx_{}_{}", ["job_observed_complete", "system_inside_run", "job_not_started", "finished_on_its_own_unobserved", "job_panicked_sender_gone", "job_panicked_still_unwinding"][*c], OPS[*o]));
             ctx_seen.insert((*o, *c));
         }
         for pr in &sh.pairs {
             pairs_seen.insert(*pr);
         }
         rep.add("hist_first_look_after_own_finish_then_later_call_while_running", sh.pairs.len() as u64);
+        rep.add("ordinary_system_panics_injected", sh.job_panics);
+        rep.add("thread_local_panics_injected_inside_wait", sh.tl_panics);
+        rep.add("calls_unwound_sender_dropped", sh.unwound_sender);
+        rep.add("calls_unwound_by_injected_panic", sh.unwound_tl);
+        rep.add("setup_calls_followed_by_a_look_at_the_world", sh.setups);
+        rep.add("panic_handler_not_seen", ev.out.gone_missed);
         rep.add("running_true", sh.run_true);
         rep.add("running_false", sh.run_false);
         rep.add("blocking_op_entered_while_a_system_is_inside_run", sh.entered_open);
@@ -1411,8 +1907,9 @@ pub fn run(args: &Args, rep: &mut Report) {
             if reported.insert(format!("impl:{}", class)) {
                 let cl = class.clone();
                 let small = shrink_case(&case, &mut |c: &Case| {
-                    // timing may matter: the failure must show in one of two runs
-                    (0..2).any(|_| eval_case(c, None, &env_shrink).impl_v.iter().any(|(q, _)| *q == cl))
+                    // a smaller case is kept only if the failure shows in both of two runs: the replay
+                    // should not depend on a race the original case did not depend on
+                    (0..2).all(|_| eval_case(c, None, &env_shrink).impl_v.iter().any(|(q, _)| *q == cl))
                 });
                 let mut what2 = what.clone();
                 for _ in 0..3 {
